@@ -43,6 +43,10 @@ fn accepted<T: Est>(x: f64) -> bool {
 
 fn run11<T: Est>(c: &H11, o: &mut Obs) -> TestResult {
     let mut pool: Vec<T> = (0..POOL).map(|_| T::new_()).collect();
+    o.evals += 1;
+    if let Some(d) = snap_diff(&T::new_().snap(), &T::default_().snap()) {
+        return fail("identity:default-differs-from-new", format!("{}: Default::default() and new() report different statistics: {}", T::NAME, d));
+    }
     let mut n = [0u64; POOL];
     let mut merges = [0u32; POOL];
     let lens_ok = |pool: &Vec<T>, n: &[u64; POOL], what: &str, o: &mut Obs| -> TestResult {
